@@ -27,6 +27,31 @@ UNITS = {"us": 0, "ms": 1, " s": 2, " m": 3, " h": 4}
 BAD = ("B", 0, 0, 77777, 0, 0, 0, 0, 0)          # a line that could not be parsed: matches nothing
 
 
+# ------------------------------------------------------------------ function ids
+EXEC_NAMES = ["execl", "execlp", "execle", "execv", "execve", "execvp", "execvpe"]
+SETJMP_NAMES = ["setjmp", "_setjmp", "sigsetjmp", "__sigsetjmp"]
+LONGJMP_NAMES = ["longjmp", "siglongjmp", "__longjmp_chk"]
+
+
+def fid_of_name(n, k):
+    """id of the k-th symbol: the fix-up class of fstack_entry (fixup_syms, matched by name) is visible in the id"""
+    if n in EXEC_NAMES:
+        return 1000000 + k + 1
+    if n in SETJMP_NAMES:
+        return 2000000 + k + 1
+    if n in LONGJMP_NAMES:
+        return 3000000 + k + 1
+    return k + 1
+
+
+def fid(case, k):
+    return fid_of_name(case["names"][k], k)
+
+
+def name_ids(case):
+    return {n: fid_of_name(n, k) for k, n in enumerate(case["names"])}
+
+
 # ------------------------------------------------------------------ case generation
 def sym_table(case):
     return [(0x1000 + 0x100 * i, 0x80, "T", n) for i, n in enumerate(case["names"])]
@@ -86,7 +111,86 @@ TICKS = [
 ]
 
 
+def gen_jump_case(rng):
+    """streams that hit the fix-ups of fstack_entry/fstack_update: setjmp ... longjmp from a deeper frame (the frames in
+    between never return), longjmp to an OUTER setjmp (the guess "latest setjmp" is corrected by the next EXIT), exec* at
+    some depth followed by the new program image from depth 0; one to three tasks (the setjmp pair is static in
+    fstack.c, i.e. shared by the tasks), optionally a plain thread next to them"""
+    names = ["main", "alpha", "beta", "gamma", "leaf"] + [rng.choice(SETJMP_NAMES), rng.choice(LONGJMP_NAMES),
+                                                         rng.choice(EXEC_NAMES), "vfork"]
+    SJ, LJ, EX = 5, 6, 7
+    tasks = []
+    for ti in range(rng.choice([1, 1, 2, 3])):
+        clk = Clock(rng, 1000 + rng.randrange(0, 5), rng.choice([(1, 2, 3), (1, 1, 2, 10), (5, 50)]))
+        recs = []
+        d0 = rng.choice([0, 0, 1])
+        d = d0
+
+        def ent(k):
+            nonlocal d
+            recs.append([clk.tick(), E, d, k])
+            d += 1
+
+        def ext(k):
+            nonlocal d
+            d -= 1
+            recs.append([clk.tick(), X, d, k])
+
+        def leaf(k):
+            ent(k)
+            ext(k)
+        ent(0)
+        for _ in range(rng.choice([1, 1, 2])):
+            shape = rng.choice(["deep", "deep", "outer", "same", "exec", "exec"])
+            if shape in ("deep", "same", "outer"):
+                ent(1)
+                dsj = d                       # depth of the setjmp call
+                leaf(SJ)
+                path = [2, 3][:rng.choice([1, 2])] if shape != "same" else []
+                for k in path:
+                    ent(k)
+                    if rng.random() < 0.5:
+                        leaf(4)
+                    if shape == "outer" and k == path[0]:
+                        leaf(SJ)              # an inner setjmp: the jump goes back to the OUTER one
+                recs.append([clk.tick(), E, d, LJ])                  # longjmp never returns
+                d = dsj
+                recs.append([clk.tick(), X, d, SJ])                  # setjmp returns a second time
+                if rng.random() < 0.7:
+                    leaf(4)
+                ext(1)
+            else:
+                ent(rng.choice([1, 2]))
+                if rng.random() < 0.5:
+                    leaf(4)
+                recs.append([clk.tick(), E, d, EX])                  # exec*: the process image is replaced
+                d = 0
+                ent(0)
+                leaf(4)
+                if rng.random() < 0.5:
+                    ent(3)
+                    leaf(4)
+                    ext(3)
+                if rng.random() < 0.6:
+                    ext(0)
+        while d > d0 and rng.random() < 0.8:
+            d -= 1
+            recs.append([clk.tick(), X, d, 0 if d == d0 else 1])
+        tasks.append({"tid": None, "parent": None, "recs": recs, "kind": "jump", "cut": False, "lost": False, "created": ti})
+    if rng.random() < 0.4:
+        f = gen_shape(rng, 5, rng.randrange(2, 8), 3)
+        stamp(f, Clock(rng, 1001, (1, 2, 5)))
+        tasks.append({"tid": None, "parent": None, "recs": flatten(f, 0), "kind": "thread", "cut": False, "lost": False,
+                      "created": len(tasks)})
+    tids = rng.sample(range(2, 99999), len(tasks))
+    for t, tid in zip(tasks, tids):
+        t["tid"] = tid
+    return {"names": names, "forks": [8], "tasks": tasks, "max_stack": 1024, "illformed": False, "sess2": None, "jump": True}
+
+
 def gen_case(rng, size="small"):
+    if rng.random() < 0.12:
+        return gen_jump_case(rng)
     while True:
         c = gen_case1(rng, size)
         if any(t["recs"] for t in c["tasks"]):      # `replay` refuses a directory without any record
@@ -284,6 +388,17 @@ def hand_cases():
                             {"fold": False, "sel": [0], "fields": ["duration", "tid", "time"], "column": None, "newline": False}],
                "tasks": [{"tid": 9, "parent": None, "recs": deep},
                          {"tid": 8, "parent": None, "recs": [[1500, E, 0, 1], [2500, X, 0, 1]]}]})
+    # fix-ups of fstack_entry / fstack_update: longjmp three frames below its setjmp (the frames in between never
+    # return), then execl at depth 2 followed by the new image from depth 0; a second task shares the static setjmp pair
+    cs.append({"names": ["main", "outer", "middle", "thrower", "leaf", "setjmp", "longjmp", "execl", "do_exec"], "forks": [],
+               "max_stack": 1024, "illformed": False, "jump": True, "sess2": None, "tasks": [
+        {"tid": 500, "parent": None, "recs": [
+            [1000, E, 0, 0], [1010, E, 1, 5], [1020, X, 1, 5], [1030, E, 1, 1], [1040, E, 2, 2], [1050, E, 3, 4], [1060, X, 3, 4],
+            [1070, E, 3, 3], [1080, E, 4, 4], [1090, X, 4, 4], [1100, E, 4, 6], [1110, X, 1, 5], [1120, E, 1, 4], [1130, X, 1, 4],
+            [1140, E, 1, 8], [1150, E, 2, 4], [1160, X, 2, 4], [1170, E, 2, 7],
+            [1200, E, 0, 0], [1210, E, 1, 4], [1220, X, 1, 4], [1230, X, 0, 0]]},
+        {"tid": 501, "parent": None, "recs": [[1005, E, 0, 1], [1015, E, 1, 2], [1025, E, 2, 5], [1035, X, 2, 5], [1105, E, 2, 4],
+                                              [1115, X, 2, 4], [1125, X, 1, 2], [1135, X, 0, 1]]}]})
     # durations at the unit boundaries
     cs.append({"names": ["main", "a"], "forks": [], "max_stack": 2, "illformed": False, "tasks": [
         {"tid": 7, "parent": None, "recs": [[1000, E, 0, 0], [1000, E, 1, 1], [1999, X, 1, 1], [2000, E, 1, 1], [3000, X, 1, 1],
@@ -376,10 +491,14 @@ def write_dir(case, d):
         tl.append({"tid": t["tid"], "pid": t["tid"], "ppid": None,
                    "recs": [{"t": r[0], "type": r[1], "depth": r[2],
                              "addr": r[3] if r[1] == LOSTREC else
-                             (BASE2 if s2 and s2["task"] == ti and ri >= s2["at"] else BASE) + syms[r[3]][0]}
+                             (BASE2 if s2 and s2["task"] == ti and ri >= s2["at"] else BASE) + syms[r[3]][0],
+                             # optional 5th component: the argument / return-value payload (hex, on-disk form; used by C18)
+                             "payload": bytes.fromhex(r[4]) if len(r) > 4 else b""}
                             for ri, r in enumerate(t["recs"])]})
     desc = {"syms": syms, "base": BASE, "tasks": tl, "max_stack": case["max_stack"]}
-    datadir.write(desc, d)
+    if case.get("argspec"):
+        desc["args"] = True
+    datadir.write(desc, d, argspec=case.get("argspec"))
     # task.txt in creation order (a parent before its children); threads belong to the first root
     tasks = case["tasks"]
     done, lines = set(), []
@@ -430,11 +549,11 @@ def parse_time_unit(s):
 
 def parse_output(out, v, case):
     """stdout of replay -> (lines, remaining); lines are 9-tuples (kind, task, indent, name, dur, addr, time, delta, elapsed)"""
-    name_idx = {n: i + 1 for i, n in enumerate(case["names"])}
+    name_idx = name_ids(case)
     tid_idx = {t["tid"]: i for i, t in enumerate(case["tasks"])}
     syms = sym_table(case)
-    addr_idx = {BASE + s[0]: i + 1 for i, s in enumerate(syms)}
-    addr_idx.update({BASE2 + s[0]: i + 1 for i, s in enumerate(syms)})
+    addr_idx = {BASE + s[0]: fid(case, i) for i, s in enumerate(syms)}
+    addr_idx.update({BASE2 + s[0]: fid(case, i) for i, s in enumerate(syms)})
     addr_idx[0] = 0
     marker = "\nuftrace stopped tracing with remaining functions\n================================================\n"
     rem_txt = ""
@@ -593,9 +712,10 @@ def coq_output(o):
                              "; ".join("(%d%%nat, [%s])" % (i, "; ".join("(%d, %d)" % p for p in ls)) for i, ls in rem))
 
 
-def coq_task(t):
+def coq_task(t, case):
     return "T %s [%s]" % ("None" if t["parent"] is None else "(Some %d%%nat)" % t["parent"],
-                          "; ".join("R %d %s %d %d" % (r[0], ["ENTRY", "EXIT", "LOST"][r[1]], r[2], r[3] if r[1] == LOSTREC else r[3] + 1)
+                          "; ".join("R %d %s %d %d" % (r[0], ["ENTRY", "EXIT", "LOST"][r[1]], r[2],
+                                                       r[3] if r[1] == LOSTREC else fid(case, r[3]))
                                     for r in t["recs"]))
 
 
@@ -632,7 +752,7 @@ def evaluate(ctx, items, name="cases"):
     defs = []
     for ci, (case, obs) in enumerate(items):
         defs.append("Definition c%d : tcase := ([%s], [%s], [%s])." % (
-            ci, "; ".join(str(k + 1) for k in case["forks"]), ";\n ".join(coq_task(t) for t in case["tasks"]),
+            ci, "; ".join(str(fid(case, k)) for k in case["forks"]), ";\n ".join(coq_task(t, case) for t in case["tasks"]),
             ";\n ".join("(%s, %s, %s)" % (coq_variant(v), coq_output(o), chk_of(v, vi)) for vi, (v, o) in enumerate(obs))))
     defs.append("Definition cases : list tcase := [%s]." % "; ".join("c%d" % i for i in range(len(items))))
     res = coq.run_cases(ctx, name, PRE, "\n".join(defs), [
@@ -660,7 +780,7 @@ def common_meta(ctx):
     ctx.assume = [
         "records are ENTRY/EXIT of user functions and the LOST marker of libmcount (no EVENT, no kernel/perf/extern data, no arguments)",
         "nesting depth < hdr.max_stack <= 1024 (default -D), no -t/-F/-N/-T/-r options, one session, symbols resolve",
-        "no symbol named exec*/setjmp/longjmp (their fix-ups are not modelled); fork/vfork/daemon are modelled",
+        "fix-up symbols fork/vfork/daemon, exec*, *setjmp*, *longjmp* are modelled (ids carry the class); the property checker is applied to streams of plain functions, jump/exec streams are compared with the model only",
         "--tid: presentation fields (-f without tid/duration) are compared with the full view only under parent-closed selections; a forked child selected without its parent continues at its inherited stack depth (modelled; the repaired defect tid-child-without-parent has a dedicated witness)",
         "timestamps >= 1000 ns and < 2^63; well-formed = per-task non-decreasing times, balanced against inherited frames",
     ]
@@ -709,6 +829,11 @@ def case_tags(case):
         tags.append("tie-inside-task")
     if case.get("sess2"):
         tags.append("second-session")
+    if case.get("jump"):
+        nm = case["names"]
+        ks = {nm[r[3]] for t in case["tasks"] for r in t["recs"] if r[1] != LOSTREC}
+        tags += ["fixup:" + ("exec" if n in EXEC_NAMES else "setjmp" if n in SETJMP_NAMES else "longjmp")
+                 for n in ks if n in EXEC_NAMES + SETJMP_NAMES + LONGJMP_NAMES]
     if any(t.get("cut") for t in case["tasks"]):
         tags.append("open-tail")
     for t in case["tasks"]:
